@@ -36,6 +36,20 @@
 //! totals that are not multiples of 5); (c) see 2.
 //! Time-unit increments must divide the next unit and be smaller than it;
 //! calendar units take any positive increment.
+//!
+//! Signatures are `<operation>/<failure class>:<input class>`. The input class
+//! is computed from the input alone (see `mk_case`, `in_class`):
+//! * `largest=week,smallest=day,inc>1` (non-zoned references) - F15;
+//! * `negative-span,calendar-smallest,exact-tie` - F14;
+//! * `zoned:reference-on-later-side-of-fold`, `zoned:r+span-on-later-side-of-fold`
+//!   (arithmetic: `(r+a)+b-...`, `r+a-...`) - the Zoned::until defects F8/F9
+//!   that Span::{round,total,checked_add} sit on; the options are not part of
+//!   the class because the defect is upstream of them;
+//! * otherwise `<sign>,smallest=<time|d|w|mo|y>,<none|marker|civil|zoned[:near-a-day-that-is-not-24h]>`
+//!   plus `,r+span-in-shadow-of-clamped-month-end` (r + n months is a clamped
+//!   date and r+span lies less than the clamped-away days after it) and
+//!   `,whole-units-of-smallest` (positive span, r+span a whole number of
+//!   `smallest` units from r).
 
 use jiff::civil::{Date, DateTime};
 use jiff::tz::AmbiguousOffset;
@@ -703,11 +717,13 @@ fn in_class(c: &RoundCase, s: usize, eff_l: usize, inc: i64) -> String {
         return c.zclass.into();
     }
     let sc = if s < D { "time" } else { UN[s] };
-    let mut out = format!("{},smallest={},{}", if c.sign < 0 { "negative-span" } else { "positive-span" }, sc, c.zclass);
+    // the length of the days near r+span only matters to the time-unit path
+    let zc = if s >= D && c.zclass.starts_with("zoned") { "zoned" } else { c.zclass };
+    let mut out = format!("{},smallest={},{}", if c.sign < 0 { "negative-span" } else { "positive-span" }, sc, zc);
     if c.shadow && eff_l >= MO && s <= MO {
         out.push_str(",r+span-in-shadow-of-clamped-month-end");
     }
-    if c.sign > 0 && s >= D && c.whole[s] {
+    if c.sign > 0 && s >= D && s != W && c.whole[s] {
         out.push_str(",whole-units-of-smallest");
     }
     out
@@ -1002,7 +1018,8 @@ fn check_neighbour(r: &Report, sec: &str, c: &RoundCase, s: usize, eff_l: usize,
     let class = match (f14, f15) {
         (true, false) => "negative-span,calendar-smallest,exact-tie".to_string(),
         (true, true) => "negative-span,calendar-smallest,exact-tie+largest=week,smallest=day,inc>1".to_string(),
-        _ => format!("{},{}", cls, t),
+        (false, true) => format!("{},{}", cls, t),
+        _ => cls,
     };
     r.viol(
         sec,
@@ -1114,9 +1131,20 @@ fn mk_case<'a>(r: &Report, rf: &'a Rf, f: &'a Sp) -> RoundCase<'a> {
     RoundCase { rf, f, span, own: own_largest(f), sign, origin, e, zclass, zfold, whole, shadow }
 }
 
+/// replay: only the (reference, span) named in `--only-case` needs to be run
+fn wanted(r: &Report, rf: &Rf, f: &Sp) -> bool {
+    match &r.only_case {
+        Some(c) => c.contains(&format!("span={} ref={}", fmt_sp(f), rf.name)),
+        None => true,
+    }
+}
+
 fn section_round(r: &Report, sec: &str, refs: &[Rf], pool: &[Sp]) {
     let items: Vec<(&Rf, &Sp)> = refs.iter().flat_map(|rf| pool.iter().map(move |f| (rf, f))).collect();
     items.par_iter().for_each(|&(rf, f)| {
+        if !wanted(r, rf, f) {
+            return;
+        }
         let c = mk_case(r, rf, f);
         let mut lc = Loc::default();
         let n = round_all(r, sec, &c, &mut lc);
@@ -1133,6 +1161,9 @@ fn section_bad_increment(r: &Report, refs: &[&Rf], pool: &[Sp]) {
     let sec = "round_bad_increment";
     let items: Vec<(&Rf, &Sp)> = refs.iter().flat_map(|rf| pool.iter().map(move |f| (*rf, f))).collect();
     items.par_iter().for_each(|&(rf, f)| {
+        if !wanted(r, rf, f) {
+            return;
+        }
         let c = mk_case(r, rf, f);
         if c.zfold {
             // Zoned::until defects F8/F9 are reported by the other sections
@@ -1261,6 +1292,9 @@ fn total_model(r: &Report, rf: &Rf, u: usize, origin: i128, e: i128) -> Option<(
 fn section_total(r: &Report, sec: &str, refs: &[Rf], pool: &[Sp]) {
     let items: Vec<(&Rf, &Sp)> = refs.iter().flat_map(|rf| pool.iter().map(move |f| (rf, f))).collect();
     items.par_iter().for_each(|&(rf, f)| {
+        if !wanted(r, rf, f) {
+            return;
+        }
         let c = mk_case(r, rf, f);
         let mut lc = Loc::default();
         for u in 0..10 {
@@ -1486,6 +1520,9 @@ fn section_to_duration(r: &Report, refs: &[Rf], pool: &[Sp]) {
     let sec = "to_duration";
     let items: Vec<(&Rf, &Sp)> = refs.iter().flat_map(|rf| pool.iter().map(move |f| (rf, f))).collect();
     items.par_iter().for_each(|&(rf, f)| {
+        if !wanted(r, rf, f) {
+            return;
+        }
         let c = mk_case(r, rf, f);
         let mut lc = Loc::default();
         let cs = || format!("to_duration span={} ref={}", fmt_sp(f), rf.name);
